@@ -82,6 +82,7 @@ type SpecFile struct {
 	Axioms      []*Clause
 	Lemmas      []*Lemma
 	Invs        map[string][]*Clause // type name -> invariants
+	ChanInvs    map[string]*Clause   // "Struct.field" -> invariant of the items sent on that channel (variable v)
 	Uses        []string             // prelude files always included
 }
 
@@ -92,13 +93,14 @@ func newSpecFile() *SpecFile {
 		GhostVars:   map[string]string{},
 		SpecFuns:    map[string]*SpecFun{},
 		Invs:        map[string][]*Clause{},
+		ChanInvs:    map[string]*Clause{},
 	}
 }
 
-var clauseHead = regexp.MustCompile(`^(requires|ensures_on_panic|ensures|maintains|modifies|invariant|decreases|panics_iff|assert)(\[[^\]]*\])?\s*(.*)$`)
+var clauseHead = regexp.MustCompile(`^(requires|ensures_on_panic|ensures|maintains|modifies|invariant|iteration|decreases|panics_iff|assert)(\[[^\]]*\])?\s*(.*)$`)
 
 var knownKeywords = map[string]bool{
-	"func": true, "iface": true, "ghost": true, "smtfun": true, "spec": true, "axiom": true, "lemma": true,
+	"func": true, "iface": true, "ghost": true, "chaninv": true, "smtfun": true, "spec": true, "axiom": true, "lemma": true,
 	"requires": true, "ensures": true, "maintains": true, "modifies": true, "pure": true, "pure_const": true, "inline": true, "let": true, "loop": true,
 	"panics_iff": true, "ensures_on_panic": true, "replay": true, "nopanic": true, "synchronous": true, "params": true, "results": true,
 	"trusted": true, "floor": true, "callee": true, "use": true, "extern": true,
@@ -233,6 +235,17 @@ func (sf *SpecFile) load(path string, extern bool) error {
 			}
 			sfn.Body = body
 			sf.SpecFuns[sfn.Name] = sfn
+		case first == "chaninv":
+			// chaninv AsyncLogger.buf: <predicate over v>
+			i := strings.Index(rest, ":")
+			if i < 0 {
+				return fail(l, "bad chaninv")
+			}
+			e, err := parseExpr(rest[i+1:])
+			if err != nil {
+				return fail(l, "%v", err)
+			}
+			sf.ChanInvs[strings.TrimSpace(rest[:i])] = &Clause{Kind: "chaninv", Text: strings.TrimSpace(rest[i+1:]), Expr: e, File: path, Line: l.line}
 		case first == "axiom":
 			e, err := parseExpr(rest)
 			if err != nil {
